@@ -18,7 +18,7 @@ ASSUMPTIONS = ['unit norm within 1e-9 for quaternions, SO(3) membership within 1
                'acc and mag at least 1 degree from parallel, all samples non-zero (as in the statement)',
                'bounded to histories of length <= 3 over the 26 lattice directions / 6 poses; magnitudes 1e-3 ... 1e3',
                'default magnetic references are never used: every estimator gets an explicit dip / reference']
-REQUIRED_CLASSES = ['single-frame', 'recursive', 'pose:level', 'pose:inverted', 'pose:vertical', 'history:jump']
+REQUIRED_CLASSES = ['float32', 'single-frame', 'recursive', 'pose:level', 'pose:inverted', 'pose:vertical', 'history:jump']
 MAG_Q = [(9.81, 45.0), (1.0, 1.0)]
 MAG_T = [(sa, sm) for sa in (1e-3, 9.81, 1e3) for sm in (1e-3, 45.0, 1e3)]
 GYR = [np.array([0.01, -0.02, 0.03]), np.array([1.0, -2.0, 0.5]), np.array([0.0, 0.0, 1e-3])]
@@ -42,7 +42,7 @@ def poses6():
     return [(rq.R(q).T @ g, rq.R(q).T @ m) for q in qs]
 
 
-def _valid_rows(out, kind, n):
+def _valid_rows(out, kind, n, tol=1e-9):
     """-> (ok, reason)"""
     o = np.asarray(out)
     if np.iscomplexobj(o) or o.dtype.kind not in 'fiu':
@@ -56,11 +56,11 @@ def _valid_rows(out, kind, n):
         return False, f'non-finite rows {np.nonzero(~np.isfinite(o.reshape(n, -1)).all(axis=1))[0][:5].tolist()}'
     if kind == 'q':
         d = np.abs(np.linalg.norm(o, axis=1) - 1.0)
-        if d.max() > 1e-9:
+        if d.max() > tol:
             return False, f'norm off by {d.max():.3g} at row {int(d.argmax())}'
     if kind == 'R':
         d = max(rq.so3_defect(x) for x in o)
-        if d > 1e-9:
+        if d > tol:
             return False, f'SO(3) defect {d:.3g}'
     return True, ''
 
@@ -109,6 +109,18 @@ def job_single(ctx, ename):
                         ok, why = _valid_rows(out, est.out, n)
                         if not ok:
                             ctx.fail(f'{ename}.{en}: one valid attitude per sample', key, why, 'finite real unit rows')
+                        elif en == 'batch' and n == 2 and (i * 31 + j) % 7 == 0 and (sa, sm) == mags[0]:
+                            # the same history in single precision (sensor drivers commonly deliver float32); judged only where double precision is valid
+                            ctx.evals += 1
+                            try:
+                                np.random.seed(1)
+                                o32 = est.batch(np.tile(a1, (n, 1)).astype(np.float32), None if est.tilt_only else np.tile(m1, (n, 1)).astype(np.float32), dip, frame)
+                                ok32, why32 = _valid_rows(np.asarray(o32, float) if not np.iscomplexobj(o32) else o32, est.out, n, tol=1e-5)
+                                if not ok32:
+                                    ctx.fail(f'{ename}.batch[float32 input]: one valid attitude per sample', key, why32, 'finite real unit rows (1e-5)')
+                            except Exception as ex:
+                                ctx.fail(f'{ename}.batch[float32 input]: raises', key, f'{type(ex).__name__}: {ex}'[:120], 'valid attitudes')
+                            ctx.cls('float32')
                 ctx.seen((ename, frame, i, j, sa, sm))
                 ctx.cls('single-frame')
         # (ii) jump histories (batch entry only)
@@ -160,6 +172,17 @@ def job_recursive(ctx, key, ci):
                     ok, why = _valid_rows(out, 'q', n)
                     if not ok:
                         ctx.fail(f'{key}: one valid attitude per sample', k, why, 'finite real unit rows')
+                    elif n == 3 and (i * 31 + j) % 7 == 0 and (sa, sm) == mags[0]:
+                        ctx.evals += 1
+                        try:
+                            np.random.seed(1)
+                            inst32 = r.klass()(**r.batch_args(g.astype(np.float32), acc.astype(np.float32), mag.astype(np.float32) if r.has_mag else None), **cfg)
+                            ok32, why32 = _valid_rows(np.asarray(r.output(inst32), float), 'q', n, tol=1e-5)
+                            if not ok32:
+                                ctx.fail(f'{key}: one valid attitude per sample (float32 input)', k, why32, 'finite real unit rows (1e-5)')
+                        except Exception as ex2:
+                            ctx.fail(f'{key}: raises (float32 input)', k, f'{type(ex2).__name__}: {ex2}'[:120], 'valid attitudes')
+                        ctx.cls('float32')
                 except Exception as ex:
                     ctx.fail(f'{key}: raises', k, f'{type(ex).__name__}: {ex}'[:120], 'valid attitudes')
             ctx.seen((key, ci, i, j, sa, sm))
